@@ -419,4 +419,6 @@ def run(ctx, progs):
         r5_overflow(ctx, P)
         r6_current_chunk_commit(ctx, P)
         r7_address_subtraction(ctx, P)
+        from . import c14
+        c14.r5_claimed_is_not_alloc_failure(ctx, P, R="C07.R8")
     ctx.config = None
